@@ -25,10 +25,14 @@ class Universe:
 
     PROFILES = {"wide": dict(n_ir=2, n_mod=3, n_sec=3, n_bi=3, n_blk=5, n_sym=3, n_proxy=2),
                 # few owners, many members: pending index updates stay below the collection size
-                "dense": dict(n_ir=1, n_mod=1, n_sec=1, n_bi=2, n_blk=9, n_sym=2, n_proxy=1, attach=True)}
+                "dense": dict(n_ir=1, n_mod=1, n_sec=1, n_bi=2, n_blk=9, n_sym=2, n_proxy=1, attach=True),
+                # one section with many intervals: the section-level index has more members than pending events
+                "intervals": dict(n_ir=1, n_mod=1, n_sec=1, n_bi=6, n_blk=3, n_sym=2, n_proxy=1, attach=True,
+                                  favour=("attr:bi", "symexpr:set", "lookup", "set_parent:bi"))}
 
-    def __init__(self, gtirb, n_ir=2, n_mod=3, n_sec=3, n_bi=3, n_blk=5, n_sym=3, n_proxy=2, attach=False):
+    def __init__(self, gtirb, n_ir=2, n_mod=3, n_sec=3, n_bi=3, n_blk=5, n_sym=3, n_proxy=2, attach=False, favour=()):
         g = self.g = gtirb
+        self.favour = favour
         self.n = {}
         k = itertools.count()
         for i in range(n_ir):
@@ -38,7 +42,7 @@ class Universe:
         for i in range(n_sec):
             self.n["s%d" % i] = g.Section(name="s%d" % i, uuid=U(next(k)))
         for i in range(n_bi):
-            self.n["bi%d" % i] = g.ByteInterval(address=None if i == 2 else 0x100 * i, size=0x40, uuid=U(next(k)))
+            self.n["bi%d" % i] = g.ByteInterval(address=None if i == 2 else 0x100 * (i % 3) + 0x20 * (i // 3), size=0x40, uuid=U(next(k)))
         for i in range(n_blk):
             cls = g.CodeBlock if i % 2 == 0 else g.DataBlock
             self.n["b%d" % i] = cls(offset=4 * i, size=(0 if i == 3 else 6), uuid=U(next(k)))
@@ -55,6 +59,9 @@ class Universe:
                 self.n["b%d" % i].byte_interval = self.n["bi%d" % (0 if i < n_blk - 2 else 1)]
         self.kinds = {"ir": g.IR, "m": g.Module, "s": g.Section, "bi": g.ByteInterval, "b": g.ByteBlock,
                       "y": g.Symbol, "p": g.ProxyBlock}
+        # shadow of the per-node mutable attributes edited in place (isolation clause of C04)
+        self.shadow_flags = {k: set() for k in self.names("s")}
+        self.shadow_aux = {k: set() for k in self.names("ir") + self.names("m")}
 
     def names(self, prefix):
         return [k for k in self.n if k.rstrip("0123456789") == prefix]
@@ -133,6 +140,16 @@ def check_forest(u):
                     errs.append("%s contains a child whose parent attribute is %r" % (name, parent_of(g, ch)))
             if len(coll) != len(items):
                 errs.append("%s: len(collection) != number of iterated items" % name)
+    # isolation: in-place edits of one node's flags / AuxData map never show on another node, nor on new nodes
+    for name, exp in u.shadow_flags.items():
+        if {f.name for f in u.n[name].flags} != exp:
+            errs.append("%s.flags is %s, expected %s (edits of another section leaked)" % (
+                name, sorted(f.name for f in u.n[name].flags), sorted(exp)))
+    for name, exp in u.shadow_aux.items():
+        if set(u.n[name].aux_data.keys()) != exp:
+            errs.append("%s.aux_data has keys %s, expected %s" % (name, sorted(u.n[name].aux_data.keys()), sorted(exp)))
+    if g.Section(name="fresh").flags != set() or dict(g.Module(name="fresh").aux_data) != {} or dict(g.IR().aux_data) != {}:
+        errs.append("a newly constructed node does not start with empty flags / AuxData")
     # derived accessors / aggregates
     for name, n in u.all_nodes():
         if isinstance(n, g.ByteBlock):
@@ -418,7 +435,15 @@ def gen_step(u, rng, props):
             ("symexpr", "clear", pick("bi"), None, None),
             ("symexpr", "assign", pick("bi"), rng.choice([0, 8]), pick("y")),
             ("lookup", rng.choice(u.names("bi") + u.names("s") + u.names("m") + u.names("ir")), rng.randint(0, len(QUERIES) - 1)),
+            ("flag", pick("s"), rng.choice(["Readable", "Writable", "Executable"]), rng.choice(["add", "discard"])),
+            ("aux", rng.choice(u.names("ir") + u.names("m")), rng.choice(["k1", "k2"]), rng.choice(["set", "del"])),
             ]
+    if u.favour and rng.random() < 0.6:
+        def tag(o):
+            return "%s:%s" % (o[0], (o[1] if o[0] == "symexpr" else str(o[1]).rstrip("0123456789")))
+        fav = [o for o in ops if o[0] in u.favour or tag(o) in u.favour]
+        if fav:
+            return list(rng.choice(fav))
     return list(rng.choice(ops))
 
 
@@ -483,6 +508,17 @@ def apply_step(u, step):
                 b.symbolic_expressions.clear()
             elif what == "assign":
                 b.symbolic_expressions = {k: g.SymAddrConst(1, n[y]), k + 4: g.SymAddrConst(2, n[y])}
+        elif op == "flag":
+            fl = getattr(g.Section.Flag, step[2])
+            getattr(n[step[1]].flags, step[3])(fl)
+            getattr(u.shadow_flags[step[1]], step[3])(step[2])
+        elif op == "aux":
+            if step[3] == "set":
+                n[step[1]].aux_data[step[2]] = g.AuxData("v", "string")
+                u.shadow_aux[step[1]].add(step[2])
+            else:
+                n[step[1]].aux_data.pop(step[2], None)
+                u.shadow_aux[step[1]].discard(step[2])
         elif op == "lookup":
             o = n[step[1]]
             q = QUERIES[step[2]]
@@ -567,7 +603,7 @@ def main(argv):
     seed, n_hist, length = int(argv[2]), int(argv[3]), int(argv[4])
     try:
         tot_e, tot_d = 0, 0
-        for profile in ("wide", "dense"):
+        for profile in ("wide", "dense", "intervals"):
             res = explore(gtirb, props, seed, n_hist if profile == "wide" else max(1, n_hist // 2), length,
                           profile=profile)
             tot_e += res.get("evaluations", 0)
